@@ -620,6 +620,7 @@ def run(c, prog):
     _C16.rule_sername(core.Alias(c, "C02"), prog, _dbm.Database())     # two canonical properties written under one element name: one is lost / renamed on read-back
     _C15.rule_sites(core.Alias(c, "C02"), prog)     # a legacy value the writer could not migrate is written as it is; the reader must then not reject the file
     rule_memo(c, prog)
+    common.rule_writer_total(c, prog, "C02.total", "xml")
     common.rule_configured_db(c, prog, "C02.cfgdb", ("rbx_xml",))
     common.rule_builders(c, prog, "C02.opts", ("rbx_xml",))
     from . import C01 as _C01
